@@ -39,6 +39,19 @@ def blob(draw, big=False, min_len=0, small_max=80):
     return f"R{n}:{seed.hex()}"
 
 
+_GX = "79be667ef9dcbbac55a06295ce870b07029bfcdb2dce28d959f2815b16f81798"
+_GY = "483ada7726a3c4655da4fbfc0e1108a8fd17b448a68554199c47d08ffb10d4b8"
+SCRIPT_LOOKALIKES = [
+    b"1A1zP1eP5QGefi2DMPTfTL5SLmv7DivfNa", b"3J98t1WpEZ73CNmQviecrnyiWrnqRhWNLy", b"mipcBbFg9gMiCh81Kj8tqqdgoZub1ZJRfn",  # Base58Check address text
+    b"bc1qw508d6qejxtdg4y5r3zarvary0c5xw7kv8f3t4", b"BC1QW508D6QEJXTDG4Y5R3ZARVARY0C5XW7KV8F3T4", b"tb1qw508d6qejxtdg4y5r3zarvary0c5xw7kxpjzsx",
+    b"bc1p0xlxvlhemja6c4dqv22uapctqupfhlxm9h8z3k2e72q4k9hcz7vqzk5jj0", b"bcrt1qw508d6qejxtdg4y5r3zarvary0c5xw7kygt080",  # segwit address text
+    bytes.fromhex("02" + _GX), bytes.fromhex("03" + _GX), bytes.fromhex("04" + _GX + _GY), bytes.fromhex(_GX),  # encoded public keys (bare, not pushes)
+    ("02" + _GX).encode(), b"KwDiBf89QgGbjEhKnhXJuH7LrciVrZi3qYjgd9M7rFU73sVHnoWn", b"76a914" + b"00" * 20 + b"88ac", b"OP_DUP OP_HASH160",
+    b"xpub661MyMwAqRbcFtXgS5sYJABqqG9YLmC4Q1Rdap9gSE8NqtwybGhePY2gZ29ESFjqJoCu1Rupje8YtGqsefD265TMg7usUDFdp6W1EGMcet8",
+]
+SCRIPT_LOOKALIKES_HEX = {b.hex() for b in SCRIPT_LOOKALIKES}
+
+
 def u32():
     return st.one_of(st.sampled_from(U32), st.integers(0, 0xFFFFFFFF))
 
@@ -120,6 +133,18 @@ def tx_case(draw, profile="full", segwit=None, max_io=None, shapes=None):
                     i["witness"] = [one] * cnt
                 else:
                     i["witness"] = [draw(sblob) for _ in range(cnt)]
+    if not many and draw(st.integers(0, 6)) == 0:
+        # a script (or witness item) whose BYTES read as something else - the text of an address, an encoded public key,
+        # a WIF string, hex digits: on the wire it is a script like any other and is carried through unchanged
+        la = draw(st.sampled_from(SCRIPT_LOOKALIKES)).hex()
+        where = draw(st.sampled_from(["out", "out", "out", "in", "wit"]))
+        if where == "wit" and is_segwit and any(i["witness"] for i in ins):
+            k = draw(st.sampled_from([k for k, i in enumerate(ins) if i["witness"]]))
+            ins[k]["witness"][draw(st.integers(0, len(ins[k]["witness"]) - 1))] = la
+        elif where == "in":
+            ins[draw(st.integers(0, len(ins) - 1))]["script"] = la
+        else:
+            outs[draw(st.integers(0, len(outs) - 1))]["script"] = la
     return {
         "version": draw(u32()),
         "locktime": draw(u32()),
@@ -165,6 +190,8 @@ def features(tx):
         f.append("script>=253")
     if any(3000 <= n < 65534 for n in sl):
         f.append("script-3000..65533")
+    if any(bytes(o["script"]) in SCRIPT_LOOKALIKES for o in tx["outs"]):
+        f.append("out-script-reads-as-address-or-key")
     if tx["segwit"]:
         f.append("segwit")
         stacks = [i["witness"] for i in tx["ins"]]
